@@ -127,6 +127,7 @@ func Load(repo, goarch, tags string) *Ctx {
 	}
 	sortFuncs(c.modFuncs)
 	sortFuncs(c.depFuncs)
+	gCtx = c
 	return c
 }
 
@@ -354,3 +355,6 @@ func FuncName(fn *ssa.Function) string {
 	s = strings.ReplaceAll(s, modPath, "tabular")
 	return s
 }
+
+// gCtx: the loaded program, for the few value classifiers that need to look at call sites.
+var gCtx *Ctx
